@@ -1,6 +1,8 @@
 import IsoVerif.Driver.Core
 import IsoVerif.Driver.Gen
 import IsoVerif.Driver.C19
+import IsoVerif.Driver.C17
+import IsoVerif.Driver.C18
 
 namespace IsoVerif.Driver
 
@@ -10,5 +12,7 @@ def prefixOps (p : String) (l : List (String × Handler)) : List (String × Hand
 def allOps : List (String × Handler) :=
   prefixOps "Gen" GenOps.ops
   ++ prefixOps "C19" C19.ops
+  ++ prefixOps "C17" C17.ops
+  ++ prefixOps "C18" C18.ops
 
 end IsoVerif.Driver
